@@ -56,6 +56,11 @@ CountChunk == [n_materials |-> "MOMT", n_groups |-> "MOGI", n_portals |-> "MOPT"
 CountDim   == [n_materials |-> "nmat", n_groups |-> "ngrp", n_portals |-> "nport", n_lights |-> "nlight",
                n_doodad_names |-> "ndd", n_doodad_defs |-> "ndd", n_doodad_sets |-> "nds"]
 
+\* byte offsets, inside a record, of the fields that address a string table (wmo.md: MOMT
+\* texture_1 at 0x0C, texture_2 at 0x18; MOGI name offset is the last u32 of the 32-byte record;
+\* MODD name index = low 24 bits of the first u32)
+MomtTex1Off == 12   MomtTex2Off == 24   MogiNameOff == 28   ModdNameOff == 0
+
 \* ------------------------------------------------------------------ string tables
 \* A string table (MOTX, MOGN, MODN) is the concatenation of NUL-terminated strings; entries are
 \* addressed by the byte offset of their first character.
